@@ -159,7 +159,13 @@ Quants1 == {Qn(q, "k", d, b) : q \in {"forall", "exists"}, d \in Domains, b \in 
 NestBodies == {Qn(q2, "j", Own("ys"), Bn("<", J, K)) : q2 \in {"forall", "exists"}}
              \cup {Qn(q2, "j", Own("ys"), Bn("and", Bn("<", J, K), Own("p"))) : q2 \in {"forall", "exists"}}
              \cup {Qn("forall", "j", Rng("[", NumA("0"), K, "]"), Bn(">", J, NumA("0")))}
-Quants2 == {Qn(q, "k", d, b) : q \in {"forall", "exists"}, d \in {Own("xs"), SetOf(<<NumA("1"), NumA("2")>>)}, b \in NestBodies}
+\* directly nested quantifiers whose INNER domain depends on the OUTER variable (rows: array of messages with an array ys)
+NestDep == {Qn(q1, "k", Own("rows"), Qn(q2, "j", Fld(K, "ys"), b)) : q1 \in {"forall", "exists"}, q2 \in {"forall", "exists"},
+               b \in {Bn("and", Bn(">", J, NumA("0")), Bn("<", J, Fld(VarR("@A"), "n"))),
+                      Un("not", Bn("or", Bn("<", J, NumA("1")), Bn(">", J, Fld(VarR("@A"), "n")))),
+                      Bn("and", Bn("<", J, Fld(VarR("@A"), "n")), Bn(">", J, Fld(K, "lo"))),
+                      Bn("and", Own("p"), Bn("<", J, Fld(VarR("@A"), "n")))}}
+Quants2 == {Qn(q, "k", d, b) : q \in {"forall", "exists"}, d \in {Own("xs"), SetOf(<<NumA("1"), NumA("2")>>)}, b \in NestBodies} \cup NestDep
 QCore == {Qn(q, "k", d, b) : q \in {"forall", "exists"}, d \in {Own("xs"), SetOf(<<NumA("1"), NumA("2")>>), Rng("[", NumA("1"), NumA("0"), "]")},
                              b \in {Bn("and", Bn(">", K, NumA("0")), Bn("<", K, NumA("2"))), Bn("and", Bn(">", K, NumA("0")), Own("p")),
                                     Bn("or", Bn(">", K, NumA("0")), Own("p")), Bn(">", K, NumA("0")),
@@ -346,6 +352,17 @@ IdxPairs == {<<Bn("+", NumA("1"), NumA("1")), NumA("2")>>, <<Bn("-", NumA("3"), 
 IdxCtx(r) == {Bn("=", r, StrA("$s")), Bn(">", r, NumA("0")), Bn("=", r, Own("y")), Un("not", r), Bn("in", r, SetOf(<<NumA("1"), NumA("2")>>))}
 FoldIdx == UNION {{Bn(op, c1, c2) : op \in {"and", "or"}, c1 \in IdxCtx(Idx(a, pr[1])), c2 \in IdxCtx(Idx(a, pr[2]))}
                    : pr \in IdxPairs, a \in {Own("xs"), Fld(VarR("@A"), "ns")}}
+(* ---- chains of constant operations that cancel exactly, compared with their own base ---- *)
+Neg(c) == Un("-", c)
+CancelOf(e) == LET c == NumA("2") d == NumA("1") IN
+  {Bn("-", Bn("-", e, c), Neg(c)), Bn("-", Bn("-", e, Neg(c)), c), Bn("-", Bn("+", e, c), c), Bn("+", Bn("-", e, c), c),
+   Bn("+", Bn("+", e, c), Neg(c)), Bn("-", Bn("-", e, d), Neg(d)), Bn("/", Bn("*", e, c), c), Bn("*", Bn("/", e, c), c),
+   Bn("*", e, d), Bn("-", e, NumA("0")), Bn("+", NumA("0"), e), Neg(Neg(e)), Bn("**", e, d), Bn("-", Bn("-", e, c), c),
+   Bn("+", Bn("-", e, c), d), Bn("-", Bn("+", e, NumA("3")), d)}
+CancelBases == {Fld(VarR("@A"), "n"), Bn("*", Own("x"), Own("y")), Idx(Own("xs"), NumA("0")), Own("x"), Call("abs", Own("x"))}
+Cancel == UNION {{Bn(op, t, e) : op \in {"=", "!=", "<", ">="}, t \in CancelOf(e)} : e \in CancelBases}
+          \cup UNION {{Bn(op, e, t) : op \in {"=", ">="}, t \in CancelOf(e)} : e \in CancelBases}
+          \cup UNION {{Bn(">", t, NumA("0")) : t \in CancelOf(e)} : e \in CancelBases}
 RandTerms == {IF i % 3 = 0 THEN RNum(RandDepth) ELSE RBool(RandDepth) : i \in 1..RandN}
 
 Members ==
@@ -367,6 +384,7 @@ Members ==
     [] Family = "qdom"    -> QInDomain
     [] Family = "loose"   -> LooseThenNarrow
     [] Family = "foldidx" -> FoldIdx
+    [] Family = "cancel"  -> Cancel
     [] OTHER -> {}
 
 TInit == cst \in Members
